@@ -432,6 +432,35 @@ def hx4(F, R):
         names = [t["callee"].get("name") for _, t in b.calls()]
         R.analysed(b, len(names))
         n += 1
+        # every value the conversion returns is from_slice(d.to_be_bytes()): a second result (a "fast path") is accepted only as the
+        # all-zero 8-byte inline value under a test that the *bits* of d are zero (`d == 0` for an integer, `d.to_bits() == 0` for a
+        # float; `d == 0.0` is also true for -0.0, whose bits are not zero)
+        for dd in b.defs().get(0, []):
+            site = (dd[0], dd[1])
+            try:
+                v = strip_load(b.expr_rvalue(dd[3], site) if dd[2] == "assign" else b.expr_call(dd[3], site))
+            except Exception:
+                continue
+            if v[0] != "agg" or v[1] != "Hex":
+                continue
+            fs = dict(v[3]) if len(v) > 3 else {}
+            arr, ln2 = strip_load(fs.get("0", ("?",))), strip_load(fs.get("1", ("?",)))
+            zero_arr = (arr[0] == "repeat" and strip_load(arr[1]) == ("const", 0)) or (arr[0] == "array" and all(strip_load(x) == ("const", 0) for x in arr[1])) \
+                or (arr[0] in ("constx", "const") and "BLANK" in repr(arr))
+            zero_bits = False
+            for f in b.facts_at(site):
+                if f[0] == "in" and f[2] == frozenset([0]):
+                    subj = strip_load(f[1])
+                    if ty == "i64" and subj == ("param", 1):
+                        zero_bits = True
+                    if subj[0] == "call" and subj[1].split("::")[-1] == "to_bits" and strip_load(subj[2][0]) == ("param", 1):
+                        zero_bits = True
+            if v[2] == "Bytes" and zero_arr and ln2 == ("const", 8) and zero_bits:
+                R.ok("HX4", b.where(site), "From<%s>: zero fast path, bit-identical to the big-endian bytes of zero" % ty)
+            else:
+                R.bad("HX4", "HX4/Hex::from<%s>/other-result" % ty, b.where(site),
+                      "From<%s> has a result that is not from_slice(d.to_be_bytes()) (%s): to_%s(from(d)) is not d for every d "
+                      "(e.g. -0.0 == 0.0)" % (ty, show(v, b)[:100], ty))
         if "to_be_bytes" in names and not any(x in names for x in ("to_le_bytes", "to_ne_bytes")):
             # and the bytes go to from_slice unchanged
             ok = False
